@@ -90,9 +90,11 @@ def run_models(ctx: Ctx):
         nonlinear = rng.random() < 0.3
         log = []
         system, spec = systems.random_loop_system(rng, size=size, name=f'f{n}', nonlinear=nonlinear, extra=rng.random() < 0.7,
-                                                  downstream=rng.random() < 0.7, log=log)
+                                                  downstream=rng.random() < 0.7, log=log, norms=(n % 2 == 1))
         N = rng.randint(1, 7)
         xs = {f'x{i}': np.array([round(rng.random(), 6) + 0.0001 * s for s in range(N)]) for i in range(size)}
+        while any(len(set(v.tolist())) < N for v in xs.values()):      # samples are told apart by their inputs in the call log
+            xs = {f'x{i}': np.array([round(rng.random(), 6) + 0.0001 * s for s in range(N)]) for i in range(size)}
         maxit = rng.choice([0, 1, 2, 3, 3, 30, 100]); amem = rng.choice([1, 2, 10])
         case = {'system': n, 'size': size, 'nonlinear': nonlinear, 'A': [[str(v) for v in r] for r in spec['A']], 'b': [str(v) for v in spec['b']],
                 'c': [str(v) for v in spec['c']], 'extra': spec['extra'], 'x': {k: v.tolist() for k, v in xs.items()},
@@ -166,7 +168,9 @@ def run_models(ctx: Ctx):
                 near = any(abs(abs(d['y'][k] - d['c'][k]) - FTOL) <= 1e-13 for d in tr for k in unames)
                 if not near:
                     trm = [[[q(d['c'][k]) for k in unames], [q(d['y'][k]) for k in unames], [q(d['z'][k]) for k in znames]] for d in tr]
-                    lines.append('fpi_trace ' + enc([q(FTOL), maxit, [q(0.0)] * size, trm, ret]))
+                    # the initial iterate is not constrained by the property (with a normalised coupling variable the code starts members listed
+                    # after its producer from the normalised mid-point taken as a raw value): the observed one is used
+                    lines.append('fpi_trace ' + enc([q(FTOL), maxit, [q(tr[0]['c'][k]) for k in unames], trm, ret]))
                     meta.append(({**case, 'sample': s, 'sweeps': len(tr)}, [d for d in tr], ret))
             else:
                 ctx.count('trace_incomplete')
@@ -200,7 +204,7 @@ def run_surrogates(ctx: Ctx):
     rng = ctx.rng
     for n in range(ctx.pick(4, 30)):
         size = rng.randint(2, 3)
-        system, spec = systems.random_loop_system(rng, size=size, name=f'g{n}', extra=True, downstream=True)
+        system, spec = systems.random_loop_system(rng, size=size, name=f'g{n}', extra=True, downstream=True, nonlinear=('rough' if n % 2 == 0 else False))
         np.random.seed(ctx.seed * 31 + n)
         system.fit(max_iter=rng.randint(4, 8), num_refine=10, max_tol=-1.0)
         N = rng.randint(2, 6)
@@ -211,6 +215,24 @@ def run_surrogates(ctx: Ctx):
             y = system.predict(xs, max_fpi_iter=maxit, anderson_mem=amem, fpi_tol=FTOL)
         except Exception as e:
             ctx.violate('C06:surrogate-predict-raises', f'{type(e).__name__}: {e}', case); continue
+        # members of ONE loop evaluated in different modes (model for some, surrogate for the others): a returned sample is a fixed point of
+        # exactly those mixed equations
+        for um in ({'l0': 'best'}, {f'l{size - 1}': 'best'}):
+            try:
+                ym = system.predict(xs, use_model=um, max_fpi_iter=60, anderson_mem=amem, fpi_tol=FTOL)
+                for s in range(N):
+                    vm = {k: float(np.ravel(ym[k])[s]) for k in ym}
+                    if any(vm[f'u{i}'] != vm[f'u{i}'] for i in range(size)):
+                        continue
+                    for i, comp in enumerate(system.components[:size]):
+                        ins = {str(v): (np.asarray(xs[str(v)])[s:s + 1] if str(v) in xs else np.array([vm[str(v)]])) for v in comp.inputs}
+                        out = comp.predict(ins, use_model=um.get(comp.name))
+                        if abs(float(np.ravel(out[f'u{i}'])[0]) - vm[f'u{i}']) > FTOL * 2 + 1e-12:
+                            ctx.violate('C06:returned-not-a-fixed-point', f'use_model={um}, sample {s}: member l{i} evaluated in its own mode at the returned '
+                                        f'values gives {float(np.ravel(out[f"u{i}"])[0])}, returned {vm[f"u{i}"]}', {**case, 'sample': s, 'use_model': um}); break
+                ctx.count('mixed_mode_loops')
+            except Exception as e:
+                ctx.violate('C06:surrogate-predict-raises', f'use_model={um}: {type(e).__name__}: {e}', case)
         unames = [f'u{i}' for i in range(size)]
         loop_out = unames + ['w0']
         for s in range(N):
